@@ -27,8 +27,10 @@ VERIF = Path(__file__).resolve().parent.parent
 REPO = Path(os.environ.get("VERIF_REPO", "/repo"))
 KANI_DIR = VERIF / "contracts" / "kani"
 VERUS_DIR = VERIF / "contracts" / "verus"
-EVIDENCE = VERIF / "evidence"
-REPLAYS = VERIF / "replays"
+# VERIF_OUT: where evidence/ and replays/ are written (default /verif; set it when checking a scratch worktree via VERIF_REPO)
+OUT_ROOT = Path(os.environ.get("VERIF_OUT", str(VERIF)))
+EVIDENCE = OUT_ROOT / "evidence"
+REPLAYS = OUT_ROOT / "replays"
 SCRATCH_ROOT = Path(os.environ.get("VERIF_SCRATCH", "/var/tmp/tcheran-verif"))
 KANI_FLAGS = ["-Z", "stubbing", "-Z", "function-contracts", "-Z", "unstable-options"]
 NCPU = os.cpu_count() or 4
@@ -1151,7 +1153,7 @@ def report(prop, tier, seed, sel, results, stage_record, verus_record, cfiles, u
         {"accepted": accepted, "refuted": refuted, "undecided": undecided}[r["state"]].append(ob)
     violations = []
     known_hits = []
-    REPLAYS.mkdir(exist_ok=True)
+    REPLAYS.mkdir(parents=True, exist_ok=True)
     for ob in refuted:
         r = results[ob.id]
         kf = None
@@ -1249,7 +1251,7 @@ def report(prop, tier, seed, sel, results, stage_record, verus_record, cfiles, u
         cov["explanation"] = (cov["explanation"] + " Only bounded obligations exist for this tier; nothing is counted as proved.").strip()
     ev = {"property_id": prop, "tier": tier, "seed": seed, "level": level, "coverage": cov,
           "assumptions": assumptions, "wall_s": round(time.time() - t_start, 1), "violations": len(violations)}
-    EVIDENCE.mkdir(exist_ok=True)
+    EVIDENCE.mkdir(parents=True, exist_ok=True)
     (EVIDENCE / (prop + ".json")).write_text(json.dumps(ev, indent=1, default=str))
     log("%s tier=%s: %d obligations (%d complete, %d bounded, %d canaries): accepted=%d refuted=%d undecided=%d  wall=%.0fs"
         % (prop, tier, len(sel), len(proof_obs), len([o for o in real if o.bounded]), len(canaries), len(accepted),
